@@ -10,7 +10,7 @@ MANIFEST = dict(
     kind="(E1) real controller + scheduler against SimBridge (executable nondeterministic model of the executors, seeded adversarial schedulers); task bodies run through the real runner and serde",
     technique="runtime monitoring of the real controller loop behind the Bridge seam: generated jobs x cluster shapes x event-delivery schedules; task callables return symbolic terms identifying every argument and position; the returned State.outputs is compared with an independent sequential evaluator",
     text="Held = for every generated job, environment and schedule the run returned exactly the requested datasets with values equal to sequential evaluation.",
-    note="the executors are a model (orders allowed = those the transports allow; per-origin FIFO in the default classes); multi-output values are bound to key-sorted output names (C10 owns the declared-order question).",
+    note="the executors are a model (orders allowed = those the transports allow; per-origin FIFO in the default classes); generated jobs declare their outputs in key-sorted order, so the engine does not depend on the binding order (C10 owns that question).",
 )
 RULE = ("case = one controller run: generated job DAG (0-16 tasks quick / 40 thorough; layered, triangular, chains, diamonds, fan-in, components, isolated, empty; 1-13 outputs; positional/keyword "
         "edges with static args and gaps; ext_outputs any subset) x environment 1-4 hosts x 1-4 workers (GPU workers as needed) x scheduler policy (uniform, eager, lazy, late, skewed, purge-first, "
